@@ -25,6 +25,14 @@ func VerifC19NewConn(qr, qw queue.Queue[pk.Packet], rerr error) *Conn {
 	}
 }
 
+// VerifC19NewConnOn is VerifC19NewConn with an underlying connection (handlers reach through to the socket,
+// e.g. to set the keep-alive deadline).
+func VerifC19NewConnOn(conn *mcnet.Conn, qr, qw queue.Queue[pk.Packet], rerr error) *Conn {
+	c := VerifC19NewConn(qr, qw, rerr)
+	c.Conn = conn
+	return c
+}
+
 // VerifC19PingAndList is pingAndList on a caller-supplied connection.
 func VerifC19PingAndList(ctx context.Context, addr string, conn *mcnet.Conn) ([]byte, time.Duration, error) {
 	return pingAndList(ctx, addr, conn)
